@@ -561,6 +561,8 @@ class ProgGen(object):
                 choices += ["for"] * 2
             if ("list" in self.feat or "gen" in self.feat) and not noloop:
                 choices += ["forin"]
+            if "pfor" in self.feat and not noloop:
+                choices += ["pfor"] * 2           # opt-in feature: for x in a for y in b repeat
         if self.in_loop and "brk" in self.feat and not nocond and not self.in_try:
             choices += ["brk"] * 2
         if self.ret_t is not None and not self.no_ret and d > 0 and not self.in_try:
@@ -647,6 +649,33 @@ class ProgGen(object):
             self.in_loop -= 1
             out = {"e": "for", "x": i, "lo": lit(SI, lo), "hi": lit(SI, hi), "body": body}
             if "filt" in self.feat and self.in_fun and r.random() < 0.5:      # opt-in feature: for i in a..b | c
+                out["filt"] = self.expr(BOOL, self.filter_scope(inner), max(d - 1, 1))
+            return out
+        if c == "pfor":
+            inner = Scope(scope)
+            its = []
+            lists = [(x, vt) for x, (vt, a) in allv.items() if isinstance(vt, list) and vt[0] == "list"]
+            for _ in range(r.choice([2, 2, 3])):
+                x = self.fresh("i")
+                if lists and r.random() < 0.5:
+                    v, vt = r.choice(lists)
+                    its.append({"x": x, "k": "list", "src": var(v)})
+                    inner.vars[x] = (vt[1], False)
+                elif "list" in self.feat and r.random() < 0.3:
+                    et = r.choice([SI, BI] if "bi" in self.feat else [SI])
+                    its.append({"x": x, "k": "list", "src": {"e": "list", "t": ["list", et], "args": [self.literal(et) for _ in range(r.randint(0, 4))]}})
+                    inner.vars[x] = (et, False)
+                else:
+                    lo = r.randint(-2, 3)
+                    its.append({"x": x, "k": "range", "lo": lit(SI, lo), "hi": lit(SI, lo + r.randint(-1, 4))})
+                    inner.vars[x] = (SI, False)
+            self.in_loop += 1
+            self.top_loop += 1
+            body = self.block(inner, d - 1, r.randint(1, 3))
+            self.top_loop -= 1
+            self.in_loop -= 1
+            out = {"e": "pfor", "its": its, "body": body}
+            if "filt" in self.feat and self.in_fun and r.random() < 0.4:
                 out["filt"] = self.expr(BOOL, self.filter_scope(inner), max(d - 1, 1))
             return out
         if c == "forin":
@@ -1250,7 +1279,7 @@ def generate(seed, n, features=None, emph=(), extras=True):
     for i in range(n):
         g = ProgGen(seed * 100003 + i, features=features, emph=emph)
         if extras and features is None and i % 3 == 2:
-            g.feat |= {"tup", "coll", "filt", "adt", "kwd", "strop", "where"}
+            g.feat |= {"tup", "coll", "filt", "adt", "kwd", "strop", "where", "pfor"}
             if "try" in g.feat and i % 2:
                 g.enable_payload()
         out.append(g.program("g%d_%d" % (seed, i)))
